@@ -49,3 +49,12 @@ claim("C09", "per-function contracts on the resolution machinery: ExactOriginCom
                   "note-attaching helpers are abstracted (opaque); get_request_handlers of a retort is checked for bounded recipe "
                   "shapes; equivalence of create_router_for_located_request with the linear scan and recipe assembly "
                   "(head+instance+class+tail, extend/replace) are not yet under contract.")
+
+claim("C18", "loaders of every enum/flag representation provider are executed symbolically from the real _make_loader for a printed "
+             "family of enum and flag classes (mixed values, str/int mix-ins, aliases, unhashable values, zero-valued, compound "
+             "members) and every option combination, against acceptance/value/closed-raises clauses over the whole data universe; "
+             "creation obligations (succeeds unless documented exclusion); dump/load round trips enumerated over all members and "
+             "all flag combinations",
+      note=NOTE + " C18-specific: bounded over the enum/flag class family and name-mapping configurations (printed); the "
+                  "round-trip part is exhaustive enumeration per class (labelled bounded); name-style conversion is exercised, "
+                  "not proved injective.")
